@@ -68,13 +68,22 @@ def run(pid, tier, seed):
     bad = C.forbidden_scan() + C.section_scan()
     if bad:
         broken.append(('hygiene', 'escape hatch in the development', '; '.join(bad[:5])))
-    res = C.build_props(pid)
-    obligations += max(1, len(res['theorems']))
-    if res['ok'] and not bad:
-        discharged += max(1, len(res['theorems']))
+    translator_failed = any(b[0] == 'translator' for b in broken)
+    if translator_failed:
+        # the Gen file on disk is stale: theorems and shards over it would say nothing about the
+        # current source, so they are counted as not discharged and not attempted
+        thms = C.theorems_in(os.path.join(C.COQ, pid, 'Props.v'))
+        res = {'ok': False, 'theorems': thms, 'log': '', 'wall': 0.0, 'assumptions': [],
+               'failed_at': 'not attempted: the translator failed, the generated model is stale', 'closed': 0}
+        obligations += max(1, len(thms))
     else:
-        if not res['ok']:
-            broken.append(('proof', 'no longer checks: %s' % res['failed_at'], res['log'][-1500:]))
+        res = C.build_props(pid)
+        obligations += max(1, len(res['theorems']))
+        if res['ok'] and not bad:
+            discharged += max(1, len(res['theorems']))
+        else:
+            if not res['ok']:
+                broken.append(('proof', 'no longer checks: %s' % res['failed_at'], res['log'][-1500:]))
     cov['theorems'] = res['theorems']
     cov['print_assumptions_axioms'] = res['assumptions']
     cov['print_assumptions_closed'] = res['closed']
@@ -88,6 +97,8 @@ def run(pid, tier, seed):
     dist = {}
     corr = {'shards': 0, 'ok_shards': 0, 'failures': [], 'cases': 0}
     try:
+        if translator_failed:
+            raise C.TranslateError('correspondence not attempted: the generated model is stale')
         casesets = mod.correspondence(rng, tier)
         for cs in casesets:
             dist[cs.name] = len(cs.cases)
@@ -102,6 +113,8 @@ def run(pid, tier, seed):
         discharged += corr['ok_shards']
         for name, idx, desc, why in corr['failures'][:20]:
             broken.append(('correspondence', '%s[%d]: %s' % (name, idx, why), desc))
+    except C.TranslateError:
+        obligations += 1
     except Exception:
         obligations += 1
         broken.append(('correspondence', 'harness crashed while running the implementation',
@@ -183,6 +196,13 @@ def run(pid, tier, seed):
         'rule': getattr(mod, 'RULE', ''), 'samples': samples[:6],
         'broken': [{'kind': k, 'what': w} for k, w, _ in broken],
     })
+    # optional per-property measurements (anchored-function coverage, generator statistics, ...)
+    extra = getattr(mod, 'extra_coverage', None)
+    if extra is not None:
+        try:
+            cov['extra'] = extra()
+        except Exception:
+            cov['extra'] = {'error': traceback.format_exc()[-400:]}
     C.write_evidence(pid, {
         'property_id': pid, 'tier': tier, 'seed': seed, 'level': 'proof', 'coverage': cov,
         'assumptions': list(getattr(mod, 'ASSUMPTIONS', [])),
